@@ -666,7 +666,9 @@ class Ev:
                 return Fraction(a) ** int(b)
             if m == "float":
                 return a ** b
-            return (Decimal(b) * Decimal(a).ln()).exp() if Fraction(b).denominator != 1 or True else a ** int(b)
+            if Fraction(b).denominator == 1:
+                return Decimal(a) ** int(b)
+            return (Decimal(b) * Decimal(a).ln()).exp()
         if k == "round":
             a = self.ev(t[1], env)
             if m == "frac":
@@ -719,11 +721,10 @@ class Ev:
     def out(self, o: Out, args: dict):
         """evaluate the emitted definition o on arguments {param: value}"""
         env = dict(args)
+        for var, par in o.cut.items():          # cut variables are parameters
+            env[var] = args[par]
         for v, k, ir in o.chain:
             env[("ref", v, k)] = self.ev(ir, env)
-        # cut variables are parameters
-        for var, par in o.cut.items():
-            env[var] = args[par]
         return self.ev(o.root, env)
 
 
